@@ -118,7 +118,8 @@ theorem probe_after_anything_false :
 `probe_after_alphabet_requests`). The first two conjuncts (the create succeeds, the read revision catches up)
 do not need `hal`. -/
 theorem probe_after_anything {g0 g : G} (h0 : C02.Init g0) (hs : C02.StoreOK g0) (hr : Reachable g0 g)
-    (hq : g.clients = []) (hb : g.dealt + 1 < 2 ^ 64) (_hcm : g.cfg.q.casMissingNotFound = false)
+    (hq : g.clients = []) (hp : g.retryPc = none) (hb : g.dealt + 1 < 2 ^ 64)
+    (_hcm : g.cfg.q.casMissingNotFound = false)
     (hal : ∀ kv ∈ g.store, ∃ k' r, kv.1 = encode k' r ∧ Alphabet k')
     (id : Nat) (k v : Bytes) (hk : Alphabet k) (hv : v ≠ tombstone)
     (hfresh : g.store.get (idxKey k) = none) :
@@ -126,15 +127,30 @@ theorem probe_after_anything {g0 g : G} (h0 : C02.Init g0) (hs : C02.StoreOK g0)
                       List.replicate (g.dealt + 1 - g.committed) Action.seq)
     (∃ d ∈ g1.done, d.id = id ∧ d.res = .ok (g.dealt + 1)) ∧ g1.committed = g.dealt + 1 ∧
     bget g1.cfg g1.store k 0 = .found v (g.dealt + 1) :=
-  probe_serves h0 hs hr hq hb hal id k v hk hv hfresh
+  probe_serves h0 hs hr hq hp hb hal id k v hk hv hfresh
+
+/-- Why `hp` ("the retry loop is not in the middle of a repair"): with no request in flight but the retry
+loop between its read and its commit, the probe's create is acknowledged, yet the read revision cannot pass the
+revision the repair holds until the repair commits (the probe is then served, `C04.quiescent_catches_up`). -/
+def midRepairSched : List Action :=
+  [.begin 1 (.create [97] [1]), .step 1 .none, .step 1 .uncApplied, .seq, .retryRead]
+
+theorem probe_needs_idle_repair :
+    let g := run {} midRepairSched
+    let g1 := run g ([.begin 7 (.create [98] [1]), .step 7 .none, .step 7 .none] ++
+                      List.replicate (g.dealt + 1 - g.committed) Action.seq)
+    g.clients = [] ∧ g.retryPc ≠ none ∧ (∃ d ∈ g1.done, d.id = 7 ∧ d.res = .ok (g.dealt + 1)) ∧
+      g1.committed < g.dealt + 1 ∧
+      (run g1 [.retryCommit .none, .seq, .seq]).committed = g.dealt + 1 := by
+  decide
 
 /-- The corrected statement at the level of requests: after ANY schedule (any interleaving, any expected
 revisions, any values, storage faults, retries) of requests whose keys are over the documented alphabet, once
-nothing is in flight, a create of a key without index record succeeds at the next revision, the read revision
+nothing is in flight (no request, and the retry loop not in the middle of a repair), a create of a key without index record succeeds at the next revision, the read revision
 catches up and the point read returns it. -/
 theorem probe_after_alphabet_requests {g0 : G} (h0 : C02.Init g0) (hs : C02.StoreOK g0) (sched : List Action)
     (hsa : ∀ a ∈ sched, ∀ id kind, a = .begin id kind → Alphabet kind.key)
-    (hq : (run g0 sched).clients = []) (hb : (run g0 sched).dealt + 1 < 2 ^ 64)
+    (hq : (run g0 sched).clients = []) (hp : (run g0 sched).retryPc = none) (hb : (run g0 sched).dealt + 1 < 2 ^ 64)
     (id : Nat) (k v : Bytes) (hk : Alphabet k) (hv : v ≠ tombstone)
     (hfresh : (run g0 sched).store.get (idxKey k) = none) :
     let g := run g0 sched
@@ -142,7 +158,7 @@ theorem probe_after_alphabet_requests {g0 : G} (h0 : C02.Init g0) (hs : C02.Stor
                       List.replicate (g.dealt + 1 - g.committed) Action.seq)
     (∃ d ∈ g1.done, d.id = id ∧ d.res = .ok (g.dealt + 1)) ∧ g1.committed = g.dealt + 1 ∧
     bget g1.cfg g1.store k 0 = .found v (g.dealt + 1) :=
-  probe_serves h0 hs ⟨sched, rfl⟩ hq hb ((AlphaInv.init h0 hs).run sched hsa).st id k v hk hv hfresh
+  probe_serves h0 hs ⟨sched, rfl⟩ hq hp hb ((AlphaInv.init h0 hs).run sched hsa).st id k v hk hv hfresh
 
 /-- `Decode` never panics on what the store holds: every internal key written by the backend is an
 `encode k r`, which is at least 13 bytes long and decodes. -/
